@@ -8,7 +8,7 @@
 (***************************************************************************)
 EXTENDS Variances
 
-CONSTANT Level      \* 1 = quick grids, 2 = thorough grids, 0 = none (trace validation)
+CONSTANT Level      \* 1 = quick grids, 2 = thorough grids, 3 = all 3 x 3 matrices over -2..3, 0 = none
 
 (* ---------------- symmetric integer matrices ----------------------------- *)
 OffIdx(M) == {ij \in (1..M) \X (1..M) : ij[1] < ij[2]}
@@ -63,14 +63,16 @@ VarGrid ==
    << Scalars(-3..8),
       Vectors(2, FALSE, -2..5) \cup Vectors(3, FALSE, -2..4) \cup Vectors(4, FALSE, {-1, 0, 2, 3})
          \cup Vectors(2, TRUE, -1..4) \cup Vectors(3, TRUE, {-1, 0, 2, 3}),
-      Matrices(2, AllSym(2, -1..4, -3..3)) \cup Matrices(3, AllSym(3, -2..3, -2..3))
+      Matrices(2, AllSym(2, -1..4, -3..3)) \cup Matrices(3, AllSym(3, {0, 1, 3}, -2..2))
          \cup Matrices(4, AllSym(4, {1, 3}, {-1, 2}))
-         \cup NcMatrices(2, AllSym(2, 0..3, -1..2), {-1, 0, 2}, NB3)
-         \cup NcMatrices(3, AllSym(3, {1, 3}, {-1, 2}), {-1, 2}, NB3),
-      Triples(-4..12) \cup Stacks(2, FALSE, AllSym(2, {0, 1, 3}, {-2, 0, 1}))
+         \cup NcMatrices(2, AllSym(2, 0..3, -1..2), {-1, 2}, NB3)
+         \cup NcMatrices(3, AllSym(3, {1, 3}, {-1, 2}), {-1, 2}, {<<2, 1, 3>>}),
+      Triples(-4..12) \cup Stacks(2, FALSE, AllSym(2, {0, 1, 3}, {-2, 1}))
          \cup Stacks(2, TRUE, NcCat2 \cup NcSym(2, {<< <<2, -1>>, <<-1, 5>> >>}, {0, 3}, {<<2, 1, 3>>}))
          \cup Stacks(3, FALSE, Cat3 \cup AllSym(3, {2}, {-1, 1}))
          \cup Stacks(3, TRUE, NcCat3) >>
+  ELSE IF Level = 3 THEN      \* every symmetric 3 x 3 matrix with entries -2..3 (46 656)
+   << {}, {}, Matrices(3, AllSym(3, -2..3, -2..3)), {} >>
   ELSE <<>>
 
 (* ---------------- evaluation arrays with NaN marks ------------------------ *)
@@ -108,9 +110,10 @@ MeanQ4 == {MeanRec(2, 4, 2, Mask4(Gen4(3, 2, 2, 2, G1), msk)) : msk \in Masks4D}
   \cup {MeanRec(2, 4, 2, Mask4(Gen4(3, 2, 2, 3, G3), msk)) : msk \in Masks4D}
 \* one set per number of dimensions (2, 3, 4)
 MeanGrid ==
-  IF Level = 1 THEN << MeanQ2, MeanQ3, MeanQ4 >>
+  IF Level = 3 THEN <<>>
+  ELSE IF Level = 1 THEN << MeanQ2, MeanQ3, MeanQ4 >>
   ELSE IF Level = 2 THEN
-   << MeanQ2 \cup {MeanRec(2, 2, 2, Mask2(ev, msk)) : ev \in Arr2(3, 2, -2..3), msk \in SampleMasks3},
+   << MeanQ2 \cup {MeanRec(2, 2, 2, Mask2(ev, msk)) : ev \in Arr2(3, 2, {-2, 0, 1, 3}), msk \in SampleMasks3},
       MeanQ3 \cup {MeanRec(2, 3, 2, Mask3(ev, msk)) : ev \in Arr3(2, 2, 2, {-1, 0, 3}), msk \in Masks3D}
          \cup {MeanRec(1, 3, 2, Mask3(ev, msk)) : ev \in Arr3(1, 2, 3, {-1, 0, 2, 5}), msk \in MasksFixed}
          \cup {MeanRec(1, 3, 3, Mask3(ev, msk)) : ev \in Arr3(1, 3, 3, {-1, 2}), msk \in MasksFixed},
@@ -130,12 +133,13 @@ FixedSmall ==
   \cup {FixRec(2, 3, b) : b \in [1..2 -> Rows3]}
   \cup {FixRec(3, 4, b) : b \in [1..3 -> Rows4]}
 FixedGrid ==
-  IF Level = 1 THEN << FixedSmall >>
+  IF Level = 3 THEN <<>>
+  ELSE IF Level = 1 THEN << FixedSmall >>
   ELSE IF Level = 2 THEN
-   << FixedSmall \cup {FixRec(2, 3, b) : b \in [1..2 -> [1..3 -> {-1, 0, 2}]]}
+   << FixedSmall \cup {FixRec(2, 3, <<a, b>>) : a \in [1..3 -> {-1, 0, 2}], b \in Rows3}
         \cup {FixRec(2, 5, b) : b \in [1..2 -> {<<0, 1, 2, 3, 5>>, <<2, -1, 0, 4, 1>>, <<1, 1, 1, 2, 1>>,
                                                   <<-2, 0, 3, 1, 1>>, <<3, 3, 0, 0, 2>>}]}
         \cup {FixRec(3, 3, b) : b \in [1..3 -> Rows3]}
-        \cup {FixRec(4, 4, b) : b \in [1..4 -> Rows4]} >>
+        \cup {FixRec(4, 4, b) : b \in [1..4 -> Rows4 \ {<<1, 0, 0, 2>>}]} >>
   ELSE <<>>
 =============================================================================
